@@ -52,7 +52,7 @@ impl Ctx {
         if self.node.is_none() {
             self.node = Some(proc::spawn_node(&self.node_path)?);
         }
-        let r = self.node.as_mut().unwrap().request(req, Duration::from_secs(60));
+        let r = self.node.as_mut().unwrap().request(req, Duration::from_secs(180));
         if r.is_err() {
             self.node = None;
         }
@@ -520,6 +520,10 @@ pub fn run_check(check: Arc<dyn Check>, tier: Tier, seed: u64) -> i32 {
         let mut ctx = Ctx::new(&node_path, tier, BTreeSet::new());
         ctx.strict = true;
         for k in &findings {
+            if k.witness.is_empty() {
+                // fallback classifications (same root cause as a witnessed entry, seen through a coarser lens)
+                continue;
+            }
             let path = format!("{}/{}", proc::verif_root(), k.witness);
             let text = match std::fs::read_to_string(&path) {
                 Ok(t) => t,
